@@ -205,6 +205,17 @@ theorem C08_lib1_removed_track_stays_removed_partial (o : FOps) (s : VSchema) (u
   · intro c hm
     exact hdead (h.crates.ctlLive _ ((CratesV1.mem_crateTracks _ h.crates c t).mp hm)).2
 
+/-- non-vacuity: after create / create / remove(1) the continuation "create a crate, add track 2, create another track (id 3),
+set its title, remove it" never re-issues id 1. -/
+example :
+    let o : FOps := ⟨fun _ => 0, fun n => if n = 0 then 0 else F64.one, fun _ _ => 0, fun b => b⟩
+    let x : Snap := { Snap.empty with relativePath := some [97] }
+    let y : Snap := { Snap.empty with relativePath := some [98] }
+    let z : Snap := { Snap.empty with relativePath := some [99] }
+    reissuesTrack o .s1_6_0 (step o .s1_6_0 (run o .s1_6_0 (Lib1.empty .s1_6_0 [77] [80] []) [.createTrack x, .createTrack y]) (.removeTrack 1)).1
+      [.createRootCrate [97], .addTrack 1 2, .createTrack z, .set 3 .title (some [84]), .removeTrack 3] 1 = false := by
+  decide +kernel
+
 /-- The full statement is false of the code on the rowid schemas: create a track (id 1), remove it — the handle is invalid —
 create another track: it gets id 1 again, and the stale handle of the first is valid and shows the second track's data. On
 the AUTOINCREMENT schemas the same history issues id 3 (2 is the placeholder row) and the stale handle stays invalid. -/
@@ -219,6 +230,58 @@ theorem C08_lib1_removed_track_stays_removed_counterexample :
       reissuesTrack o .s1_6_0 run6 [.createTrack y] 1 = true) ∧
     (trackLive run17 1 = .ok false ∧ Out.newId (step o .s1_17_0 run17 (.createTrack y)).2 = some 3 ∧
       trackLive (step o .s1_17_0 run17 (.createTrack y)).1 1 = .ok false) := by
+  decide +kernel
+
+/-! ### stale crate handles on the composite (the crates package's `reissues` form, over interleaved histories) -/
+
+/-- FULL STATEMENT (false of the code, `C07_removed_never_returned_counterexample`): "a removed crate is never valid again".
+PROVED PART, over histories that interleave crate, membership and TRACK calls: an invalid crate id stays invalid — and no
+crate lists it, `crate_by_id` finds nothing — after every continuation in which no crate creation reports that very id
+(`reissuesCrate … = false`, decidable). -/
+theorem C08_lib1_removed_crate_stays_removed_partial (o : FOps) (s : VSchema) (um up dir : Bytes) (cs cs' : List Call) (y : Id)
+    (hy : CratesV1.crateIsValid (run o s (Lib1.empty s um up dir) cs).cr y = .ok false)
+    (hno : reissuesCrate o s (run o s (Lib1.empty s um up dir) cs) cs' y = false) :
+    let L := run o s (run o s (Lib1.empty s um up dir) cs) cs'
+    (step o s L (.crateIsValid y)).2 = .ok (.bool false) ∧ (step o s L (.crateById y)).2 = .ok (.optId none) ∧
+    y ∉ CratesV1.dbCrates L.cr ∧ (∀ t, y ∉ CratesV1.trackContainingCrates (toDetect s) L.cr t) := by
+  intro L
+  have h0 : LibInv s (run o s (Lib1.empty s um up dir) cs) := libInv_run o cs (libInv_empty s um up dir)
+  have h : LibInv s L := libInv_run o cs' h0
+  have hy0 := (CratesV1.isValid_false_iff h0.crates.toFInv y).mp hy
+  have hd : y ∉ CratesV1.ids L.cr := crateDead_suffix o y cs' h0 hy0 hno
+  have hv := (CratesV1.isValid_false_iff h.crates.toFInv y).mpr hd
+  refine ⟨?_, ?_, ?_, ?_⟩
+  · show mapRes Out.bool (CratesV1.crateIsValid L.cr y) = _; rw [hv]; rfl
+  · show mapRes Out.optId (CratesV1.dbCrateById L.cr y) = _
+    unfold CratesV1.dbCrateById
+    rw [hv]; rfl
+  · unfold CratesV1.dbCrates CratesV1.sortIds
+    rw [List.mem_mergeSort]; exact hd
+  · intro t hm
+    exact hd (h.crates.ctlLive _ ((CratesV1.mem_containing _ h.crates t y).mp hm)).1
+
+/-- non-vacuity: crate 1 removed; the continuation creates a track, adds it to crate 2, renames crate 2, sets the track's
+title, creates a sub-crate (id 3) — id 1 is not re-issued (1.9.1: `MAX(id)+1`). -/
+example :
+    let o : FOps := ⟨fun _ => 0, fun n => if n = 0 then 0 else F64.one, fun _ _ => 0, fun b => b⟩
+    let L := run o .s1_9_1 (Lib1.empty .s1_9_1 [77] [80] []) [.createRootCrate [97], .createRootCrate [98], .removeCrate 1]
+    CratesV1.crateIsValid L.cr 1 = .ok false ∧
+    reissuesCrate o .s1_9_1 L [.createTrack { Snap.empty with relativePath := some [97] }, .addTrack 2 1, .setName 2 [99],
+      .set 1 .title (some [84]), .createSubCrate 2 [100]] 1 = false := by
+  decide +kernel
+
+/-- The full statement is false on the composite too: with the surviving crate removed as well, the next creation re-issues
+id 1 (rowid rule and `MAX(id)+1` alike), with track calls in between. -/
+theorem C08_lib1_removed_crate_stays_removed_counterexample :
+    let o : FOps := ⟨fun _ => 0, fun n => if n = 0 then 0 else F64.one, fun _ _ => 0, fun b => b⟩
+    let x : Snap := { Snap.empty with relativePath := some [97] }
+    (let L := run o .s1_6_0 (Lib1.empty .s1_6_0 [77] [80] []) [.createRootCrate [97], .createTrack x, .addTrack 1 1, .removeCrate 1]
+     CratesV1.crateIsValid L.cr 1 = .ok false ∧
+     CratesV1.crateIsValid (run o .s1_6_0 L [.set 1 .title (some [84]), .createRootCrate [98]]).cr 1 = .ok true ∧
+     reissuesCrate o .s1_6_0 L [.set 1 .title (some [84]), .createRootCrate [98]] 1 = true ∧
+     CratesV1.crateTracks (toDetect .s1_6_0) (run o .s1_6_0 L [.set 1 .title (some [84]), .createRootCrate [98]]).cr 1 = []) ∧
+    (let L := run o .s1_18_0_os (Lib1.empty .s1_18_0_os [77] [80] []) [.createRootCrate [97], .removeCrate 1]
+     CratesV1.crateIsValid (run o .s1_18_0_os L [.createRootCrate [98]]).cr 1 = .ok true) := by
   decide +kernel
 
 end EngineModel.Properties.C08Lib1
